@@ -11,6 +11,7 @@ import (
 	"reflect"
 	"strconv"
 	"strings"
+	"sync"
 	"syscall"
 	"testing"
 	"time"
@@ -462,7 +463,8 @@ func TestC16EnumWatcher(t *testing.T) {
 	}
 	ctx, cancel := context.WithCancel(context.Background())
 	defer cancel()
-	w := fsnotify.New(ctx, yamll.New(), refsrv.NopLogger{})
+	wl := &watchLog{}
+	w := fsnotify.New(ctx, yamll.New(), wl)
 	if err := w.Load(path); err != nil {
 		t.Fatalf("HARNESS-BUG: watcher refused the first document: %v", err)
 	}
@@ -471,6 +473,17 @@ func TestC16EnumWatcher(t *testing.T) {
 		case v := <-w.Config():
 			return v
 		case <-time.After(watchdog):
+			// Nothing published.  The watcher's own log decides: if the last thing it did was to report
+			// a failed reload, it has been silent since (it acts on file events only, and they have all
+			// been delivered by now), and a fresh loader accepts the file as it stands, then the
+			// configuration on disk will never be loaded.
+			before := wl.snapshot()
+			time.Sleep(3 * time.Second)
+			after := wl.snapshot()
+			fresh := yamll.New()
+			if len(after) == len(before) && len(after) > 0 && after[len(after)-1].level == "error" && fresh.Load(path) == nil {
+				violation(t, "C16", "watcher", "C16:watcher-reload-failed-for-acceptable-file", cse, "%s: the watcher published nothing; its last action was to report a failed reload (%q) although a fresh loader accepts the file as it stands", what, after[len(after)-1].text)
+			}
 			t.Fatalf("HARNESS-BUG/INCONCLUSIVE: the watcher published nothing within %v after %s", watchdog, what)
 		}
 		return config.ServerConfig{}
@@ -545,6 +558,34 @@ func TestC16EnumWatcher(t *testing.T) {
 			t.Fatalf("HARNESS-BUG/INCONCLUSIVE: the watcher published nothing after an edit in place, although the file is still watched")
 		}
 	}
+}
+
+// watchLog records what the watcher logs.
+type watchLog struct {
+	mu   sync.Mutex
+	recs []watchRec
+}
+
+type watchRec struct{ level, text string }
+
+func (l *watchLog) add(level, format string, args []interface{}) {
+	l.mu.Lock()
+	l.recs = append(l.recs, watchRec{level, fmt.Sprintf(format, args...)})
+	l.mu.Unlock()
+}
+func (l *watchLog) Infof(ctx context.Context, format string, args ...interface{}) {
+	l.add("info", format, args)
+}
+func (l *watchLog) Errorf(ctx context.Context, format string, args ...interface{}) {
+	l.add("error", format, args)
+}
+func (l *watchLog) Debugf(ctx context.Context, format string, args ...interface{}) {
+	l.add("debug", format, args)
+}
+func (l *watchLog) snapshot() []watchRec {
+	l.mu.Lock()
+	defer l.mu.Unlock()
+	return append([]watchRec{}, l.recs...)
 }
 
 // inotifyCovers: does any inotify instance of this process watch the inode of dir or of path?
